@@ -133,6 +133,9 @@ def StrIndexOf(input_string, substring, startIndex):
         s = input_string.value
         t = substring.value
         i = startIndex.value
+        if i > len(s):
+            # also for an empty substring: there is no position past the end
+            return BVV(-1, 64)
         return BVV(i + s[i:].index(t), 64)
     except ValueError:
         return BVV(-1, 64)
